@@ -425,3 +425,122 @@ Proof.
   intros Wa Wb. pose proof (contains_b_enc (normalise a) (normalise b) (wfb_normalise a Wa) (wfb_normalise b Wb)) as H.
   rewrite !enc_normalise, (contains_b_enc a b Wa Wb) in H. congruence.
 Qed.
+
+(* ---------------------------------------------------------------- the fuel is enough on EVERY pair of buffers *)
+(* EFuel is a model artefact; it is unreachable whatever the bytes are: the array iterator reads an entry word at a
+   strictly larger offset each round, and every recursive call of contains_jsonb gets a slice of `right` that starts
+   at offset >= 8, so it is at least 8 bytes shorter *)
+From JB Require Import RenderWalkProofs.
+
+Definition nf {A} (r : res A) : Prop := r <> Err EFuel.
+Lemma nf_ok {A} (a : A) : nf (Ok a). Proof. intros H; discriminate H. Qed.
+Lemma nf_panic {A} : nf (@Panic A). Proof. intros H; discriminate H. Qed.
+Lemma nf_other {A} : nf (@Err A EOther). Proof. intros H; discriminate H. Qed.
+Lemma nf_bind {A B} (r : res A) (f : A -> res B) : nf r -> (forall a, r = Ok a -> nf (f a)) -> nf (bind r f).
+Proof.
+  destruct r; cbn [bind]; intros H1 H2; [apply H2; reflexivity| |apply nf_panic].
+  intros E. apply H1. injection E as ->. reflexivity.
+Qed.
+
+Lemma arr_fold_nf {St R} bs (step : St -> je -> list N -> res (St + R)) fin :
+  (forall s, nf (fin s)) ->
+  (forall s j p, lenN p + 8 <= lenN bs -> nf (step s j p)) ->
+  forall fuel idx len joff voff s, joff <= lenN bs + 4 -> lenN bs + 4 < joff + 4 * N.of_nat fuel -> (idx < len -> 8 <= voff) ->
+  nf (arr_fold bs step fin fuel idx len joff voff s).
+Proof.
+  intros Hfin Hstep. induction fuel as [|f IH]; intros idx len joff voff s H1 H2 H3; [lia|].
+  cbn [arr_fold]. destruct (len <=? idx) eqn:E; [apply Hfin|]. apply N.leb_gt in E.
+  destruct (read_u32 bs joff) as [w|] eqn:Rw; [|apply Hfin].
+  destruct (slice bs voff (je_len w)) as [p|] eqn:Sp; [|apply nf_panic].
+  pose proof (read_u32_bound _ _ _ Rw) as Bw.
+  destruct (slice_split _ _ _ _ Sp) as (A & B & EV & EO & EL).
+  assert (Lp : lenN p + 8 <= lenN bs) by (rewrite EV, !lenN_app; specialize (H3 E); lia).
+  apply nf_bind; [apply Hstep; exact Lp|]. intros [s'|y] _; [|apply nf_ok].
+  apply IH; [lia|lia|]. intros _. specialize (H3 E). lia.
+Qed.
+Lemma iterate_array_nf {St R} bs hdr (step : St -> je -> list N -> res (St + R)) fin s :
+  (forall s, nf (fin s)) -> (forall s j p, lenN p + 8 <= lenN bs -> nf (step s j p)) ->
+  nf (iterate_array bs hdr step fin s).
+Proof.
+  intros Hfin Hstep. unfold iterate_array. apply (arr_fold_nf bs step fin Hfin Hstep); unfold lenN; lia.
+Qed.
+
+Lemma ent_loop_nf {St R} bs (step : St -> list N -> je -> list N -> res (St + R)) fin :
+  (forall s, nf (fin s)) -> (forall s k j p, lenN p + 8 <= lenN bs -> nf (step s k j p)) ->
+  forall kws koff joff voff s, 8 <= voff -> nf (ent_loop bs step fin kws koff joff voff s).
+Proof.
+  intros Hfin Hstep. induction kws as [|kw r IH]; intros koff joff voff s Hv; cbn [ent_loop]; [apply Hfin|].
+  destruct (slice bs koff (je_len kw)) as [k|]; [|apply nf_panic].
+  destruct (read_u32 bs joff) as [vw|]; [|apply Hfin].
+  destruct (slice bs voff (je_len vw)) as [p|] eqn:Sp; [|apply nf_panic].
+  destruct (slice_split _ _ _ _ Sp) as (A & B & EV & EO & EL).
+  apply nf_bind; [apply Hstep; rewrite EV, !lenN_app; lia|]. intros [s'|y] _; [|apply nf_ok].
+  apply IH. lia.
+Qed.
+Lemma iterate_object_entries_nf {St R} bs hdr (step : St -> list N -> je -> list N -> res (St + R)) fin s :
+  (forall s, nf (fin s)) -> (forall s k j p, lenN p + 8 <= lenN bs -> nf (step s k j p)) ->
+  nf (iterate_object_entries bs hdr step fin s).
+Proof.
+  intros Hfin Hstep. unfold iterate_object_entries.
+  destruct (rd_words (S (length bs)) bs 0 (hdr_len hdr) 4) as [kws|] eqn:E; [|apply nf_panic].
+  destruct kws as [|kw r]; [cbn [ent_loop]; apply Hfin|].
+  apply (ent_loop_nf bs step fin Hfin Hstep). pose proof (rd_words_len _ _ _ _ _ _ E) as L. rewrite lenN_cons in L. lia.
+Qed.
+
+Lemma array_contains_nf arr hdr val vje : nf (array_contains_w arr hdr val vje).
+Proof.
+  unfold array_contains_w. apply iterate_array_nf; [intros; apply nf_ok|].
+  intros s j p _. destruct (negb (fst j =? fst vje)); [apply nf_ok|]. destruct (scalar_payload_eq_w (fst vje) val p); apply nf_ok.
+Qed.
+Lemma nested_of_nf l lh : nf (nested_of l lh).
+Proof.
+  unfold nested_of. apply nf_bind; [|intros; apply nf_ok].
+  unfold arr_items. apply iterate_array_nf; intros; apply nf_ok.
+Qed.
+Lemma nested_any_nf rec ls : (forall x, nf (rec x)) -> nf (nested_any rec ls).
+Proof.
+  intros H. induction ls as [|x r IH]; cbn [nested_any]; [apply nf_ok|].
+  apply nf_bind; [apply H|]. intros [|] _; [apply nf_ok|exact IH].
+Qed.
+Lemma name_loop_nf bs name ic : forall kws ko jo vo res0, nf (name_loop bs name ic kws ko jo vo res0).
+Proof.
+  induction kws as [|kw r IH]; intros ko jo vo res0; cbn [name_loop]; [apply nf_ok|].
+  destruct (slice bs ko (je_len kw)); [|apply nf_panic]. destruct (read_u32 bs jo); [|apply nf_ok].
+  destruct (bytes_eqb name l); [apply nf_ok|apply IH].
+Qed.
+Lemma by_name_nf bs off hdr name ic : nf (get_jentry_by_name_w bs off hdr name ic).
+Proof. unfold get_jentry_by_name_w. destruct (rd_words _ _ _ _ _); [apply name_loop_nf|apply nf_ok]. Qed.
+
+Lemma contains_step_nf rec l r : (forall lv rv, lenN rv + 8 <= lenN r -> nf (rec lv rv)) -> nf (contains_step rec l r).
+Proof.
+  intros Hrec. unfold contains_step.
+  destruct (read_u32 l 0) as [lh|]; [|apply nf_other]. destruct (read_u32 r 0) as [rh|]; [|apply nf_other]. cbv zeta.
+  destruct ((hdr_type lh =? ARRAY_CONTAINER_TAG) && (hdr_type rh =? SCALAR_CONTAINER_TAG)).
+  { destruct (read_u32 r 4); [|apply nf_other]. destruct (slice_from r 8); [apply array_contains_nf|apply nf_panic]. }
+  destruct (negb (hdr_type lh =? hdr_type rh)); [apply nf_ok|].
+  destruct (hdr_type rh =? OBJECT_CONTAINER_TAG).
+  { destruct (hdr_len lh <? hdr_len rh); [apply nf_ok|].
+    apply iterate_object_entries_nf; [intros; apply nf_ok|]. intros s k j p Lp.
+    apply nf_bind; [apply by_name_nf|]. intros [[lenc loff]|] _; [|apply nf_ok].
+    destruct (negb (je_type lenc =? fst j)); [apply nf_ok|].
+    apply nf_bind; [unfold slice_p; destruct (slice l loff (je_len lenc)); [apply nf_ok|apply nf_panic]|]. intros lval _.
+    destruct (negb (fst j =? CONTAINER_TAG)); [destruct (scalar_payload_eq_w (fst j) lval p); apply nf_ok|].
+    apply nf_bind; [apply Hrec; exact Lp|]. intros [|] _; apply nf_ok. }
+  destruct (hdr_type rh =? ARRAY_CONTAINER_TAG).
+  { apply iterate_array_nf; [intros; apply nf_ok|]. intros s j p Lp.
+    destruct (negb (fst j =? CONTAINER_TAG)).
+    - apply nf_bind; [apply array_contains_nf|]. intros [|] _; apply nf_ok.
+    - apply nf_bind; [apply nested_of_nf|]. intros nested _.
+      apply nf_bind; [apply nested_any_nf; intros x; apply Hrec; exact Lp|]. intros [|] _; apply nf_ok. }
+  destruct (read_u32 l 4) as [lw|]; [|apply nf_other]. destruct (read_u32 r 4) as [rw|]; [|apply nf_other].
+  destruct (negb (je_type lw =? je_type rw)); [apply nf_ok|].
+  destruct (slice_from l 8); [|apply nf_panic]. destruct (slice_from r 8); [apply nf_ok|apply nf_panic].
+Qed.
+
+Theorem contains_jsonb_fuel : forall fuel l r, (length r < fuel)%nat -> contains_jsonb_w fuel l r <> Err EFuel.
+Proof.
+  induction fuel as [|f IH]; intros l r H; [lia|]. cbn [contains_jsonb_w].
+  apply contains_step_nf. intros lv rv Lr. apply IH. unfold lenN in Lr. lia.
+Qed.
+Corollary contains_b_fuel l r : contains_jsonb_w (S (length r)) l r <> Err EFuel.
+Proof. apply contains_jsonb_fuel. lia. Qed.
